@@ -1,13 +1,14 @@
 SPECIFICATION Spec
 CONSTANTS
-  Ids <- Ids1
-  Calls <- CallsT
-  TagOps <- TagOps3
-  Times <- Times2
-  MaxTests = 1
+  Ids <- Ids2
+  Calls <- CallsK
+  TagOps <- TagOps1
+  Times <- Times1
+  MaxTests = 3
   MaxTags = 1
-  MaxTime = 0
-VIEW ViewNoHist
+  MaxTime = 1
+CONSTRAINT ExportC
+CONSTRAINT FirstIsT1
 INVARIANT WireWellFormed
 INVARIANT RoundTrip
 INVARIANT TableTracksOpenTest
